@@ -36,7 +36,7 @@ ASSUMPTIONS = [
 
 D = decimal.Decimal
 decimal.getcontext().prec = 60
-CONTEXTS = ["select", "nested", "cte", "view", "ctas", "where", "dml"]
+CONTEXTS = ["select", "nested", "cte", "view", "ctas", "where", "dml", "merge"]
 UNSUPPORTED = "<<must-raise>>"
 ERROR = "<<error>>"
 
@@ -307,6 +307,11 @@ def f_sha2(r: random.Random):
     s = r.choice(WORDS + ["The quick brown fox", "é✓"])
     x = r.random()
     h = hashlib.sha256(s.encode()).hexdigest()
+    if x < 0.12:
+        # a BINARY message is hashed as its bytes (or the form is refused), never as some rendering of them as text
+        raw = r.choice([bytes.fromhex("E29D84"), b"\xff\x00\x80", "é✓".encode(), b"abc", bytes(range(250, 256))])
+        fn = r.choice(["SHA2", "SHA2_HEX"])
+        return f"{fn}(X'{raw.hex().upper()}')", ("value-or-raise", hashlib.sha256(raw).hexdigest()), "binary-message"
     if x < 0.25:
         return f"SHA2({q(s)})", h, "sha2"
     if x < 0.45:
@@ -465,6 +470,11 @@ def _eval(cur: Any, expr: str, ctx: str) -> dict:
         sqls = [f"CREATE OR REPLACE VIEW V_C10 AS SELECT {expr} AS X", "SELECT X FROM V_C10"]
     elif ctx == "ctas":
         sqls = [f"CREATE OR REPLACE TABLE T_C10 AS SELECT {expr} AS X", "SELECT X FROM T_C10"]
+    elif ctx == "merge":
+        # the expression as the value a MERGE writes, in its UPDATE SET and in its INSERT VALUES
+        sqls = [f"CREATE OR REPLACE TABLE T_C10R AS SELECT 0 AS K, {expr} AS X", "UPDATE T_C10R SET X = NULL",
+                f"MERGE INTO T_C10R t USING (SELECT 0 AS K UNION ALL SELECT 1 AS K) s ON t.K = s.K WHEN MATCHED THEN UPDATE SET X = {expr} "
+                f"WHEN NOT MATCHED THEN INSERT (K, X) VALUES (s.K, {expr})", "SELECT X FROM T_C10R ORDER BY K"]
     else:
         sqls = [f"SELECT {expr} AS X FROM NUMS WHERE ID = 1 AND ({expr}) IS NOT DISTINCT FROM ({expr})"]
     out: dict = {}
@@ -510,6 +520,8 @@ def run_case(case: dict, env: core.Env) -> None:
             continue
         rows = out["rows"]
         got = rows[0][0] if rows else "<<no row>>"
+        if ctx == "merge" and (len(rows) != 2 or rows[0] != rows[1]):
+            got = ("<<updated and inserted values>>", rows)
         if ctx == "select":
             first = got
             env.count("cmp_value")
